@@ -1,15 +1,58 @@
 (* kind dr: the DATA reader in isolation *)
-From Smtp Require Import Bytes Sx Transport DataReader DotSpec CheckBase.
+From Smtp Require Import Bytes Sx Transport DataReader ReadRetry DotSpec CheckBase.
 
 (* ---- kind "dr": the DATA reader in isolation ----
    (dr (linelimit n) (max n) (raws ...) (sizes ...) (stop none|n) 
-       (obs (out x) (err e) (drain e) (rest x) (resterr e))) *)
+       (obs (out x) (err e) (drain e) (rest x) (resterr e)) [(retry k)])
+   (retry k): the backend goes on reading after up to k reads that ended in a
+   transport failure (ReadRetry.v; harness/retry.go) *)
 
 Definition dr_obs (out : bytes) (e : option rerr) (de : option rerr)
                   (rest : bytes) (re : option terr) : sx :=
   SL [XT "obs"; SL [XT "out"; XB out]; SL [XT "err"; show_rerr e];
       SL [XT "drain"; show_rerr de]; SL [XT "rest"; XB rest];
       SL [XT "resterr"; show_topt re]].
+
+(* cases with (retry k): the message as the reader sees it when the backend reads on after failures -
+   all data of the schedule; [pre]: the octets in front of the last failure that has data behind it *)
+Fixpoint raws_all_bytes (rs : list raw) : bytes :=
+  match rs with
+  | [] => []
+  | RData c d :: r => c :: d ++ raws_all_bytes r
+  | RFail _ :: r => raws_all_bytes r
+  end.
+
+Fixpoint has_data (rs : list raw) : bool :=
+  match rs with
+  | [] => false
+  | RData _ _ :: _ => true
+  | RFail _ :: r => has_data r
+  end.
+
+(* (number of failures with data behind them, octets in front of the last of them) *)
+Fixpoint mid_fails (rs : list raw) (seen : nat) : nat * nat :=
+  match rs with
+  | [] => (O, O)
+  | RData c d :: r => mid_fails r (S (List.length d) + seen)
+  | RFail _ :: r =>
+      let '(n, pre) := mid_fails r seen in
+      if has_data r then (S n, match n with O => seen | _ => pre end) else (n, pre)
+  end.
+
+(* the backend's reads meet every failure of the schedule and it reads on after each: all of them lie
+   inside the message, and (with a limit) in front of the point where the reader stops handing out
+   octets - beyond it the reader's own drain would meet them, which the specification below does not
+   describe *)
+Definition retry_judged (ll : N) (mx : Z) (retry : nat) (rs : list raw) : bool :=
+  let '(n, pre) := mid_fails rs O in
+  let all := raws_all_bytes rs in
+  (ll =? 0)%N && (n <=? retry)%nat
+  && match unstuff (firstn pre all) with Incomplete _ => true | Complete _ _ => false end
+  && ((mx <=? 0)%Z || (Z.of_nat pre <? mx)%Z
+      || match unstuff all with
+         | Complete body _ => (Z.of_nat (List.length body) <=? mx)%Z
+         | Incomplete _ => false
+         end).
 
 Definition check_dr (args : list sx) : verdict :=
   match assoc1 "linelimit" args, assoc1 "max" args, assoc1 "raws" args,
@@ -21,19 +64,34 @@ Definition check_dr (args : list sx) : verdict :=
           | Some sizes =>
               let stop := if sx_is "none" st then None else sx_N st in
               let t0 := mkT [] rs 0%N ll false in
-              let '(out, e, d1, t1) := backend_reads sizes stop (new_data_reader mx) t0 in
+              let retry := match assoc1 "retry" args with
+                           | Some k => match sx_nat k with Some k => k | None => O end
+                           | None => O
+                           end in
+              let '(out, e, d1, t1) :=
+                match retry with
+                | O => backend_reads sizes stop (new_data_reader mx) t0
+                | _ => backend_reads_retry sizes stop retry (new_data_reader mx) t0
+                end in
               let '(de, d2, t2) := dr_drain d1 t1 in
               let '(rest, re) := t_read_rest t2 in
               let model := dr_obs out e de rest re in
               let agree := sx_eqb model (SL (XT "obs" :: obs)) in
               (* oracle: the property specs evaluated on the recorded behaviour *)
-              let transparent := lim_ok ll 0%N rs in
-              let stream := raws_bytes rs in
+              let transparent := match retry with O => lim_ok ll 0%N rs | _ => retry_judged ll mx retry rs end in
+              let stream := match retry with O => raws_bytes rs | _ => raws_all_bytes rs end in
               let o_out := match assoc1 "out" obs with Some x => sx_bytes x | None => None end in
               let o_err := assoc1 "err" obs in
               let o_rest := match assoc1 "rest" obs with Some x => sx_bytes x | None => None end in
               let is_e (tag : string) := match o_err with Some x => sx_is tag x | None => false end in
+              (* C06 itself, on whatever was recorded: with a limit the reader never hands over more
+                 than that many octets - octets that came with a failed read included *)
+              let over := match o_out with
+                          | Some oo => (0 <? mx)%Z && (mx <? Z.of_nat (List.length oo))%Z
+                          | None => false
+                          end in
               let viol :=
+                (if over then [bs "C06"] else []) ++
                 if negb transparent then []
                 else match unstuff stream, o_out, o_rest, stop with
                      | Complete body rest, Some oo, Some orr, None =>
@@ -52,7 +110,8 @@ Definition check_dr (args : list sx) : verdict :=
               let tags :=
                 [match unstuff stream with Complete _ _ => bs "complete" | Incomplete _ => bs "incomplete" end;
                  if transparent then bs "transparent" else bs "limiter-trips";
-                 if (0 <? mx)%Z then bs "limited" else bs "unlimited"] in
+                 if (0 <? mx)%Z then bs "limited" else bs "unlimited"]
+                ++ match retry with O => [] | _ => [bs "reads-on-after-failure"] end in
               mkV true agree model viol [] tags
           | None => bad_case
           end
